@@ -158,6 +158,49 @@ def entry (S : Scheme) (E : Enc) (api : Api) (trusted : Bool) (r : Req) : Res :=
   | .ctx => if needsSignature trusted r then verifyReq S false E r else .ok
   | .n3 => if needsSignature trusted r then verifyReq S true E r else .ok
 
+/-! ## `GetRequestAuthor` (internal/crypto/requests.go): whose request is it
+
+The author is read off the body signature of the TOP verification header — never off a nested origin: in the
+≥ 2.25 variant the top layer is the only one `verifyReq` looks at, in the chain variant a top layer with origins
+carries no body signature at all. -/
+
+inductive Author where
+  /-- "missing verification header" -/
+  | noHeader
+  /-- "missing body signature" -/
+  | noBodySig
+  /-- "unsupported scheme" -/
+  | badScheme
+  /-- an ECDSA scheme with key bytes that do not decode: the decoding error is dropped and the nil key is
+  dereferenced (the call panics) -/
+  | nilKey
+  /-- the author is the account derived from this signature's key (ECDSA: the key's user id; N3: the account of
+  the verification script) and the key bytes are returned with it -/
+  | key (s : Sig)
+  deriving DecidableEq, Repr
+
+/-- what `GetRequestAuthor` answers for one body-signature field -/
+def authorOfSig (S : Scheme) : Option Sig → Author
+  | none => .noBodySig
+  | some s =>
+    if s.scheme == 0 || s.scheme == 1 || s.scheme == 2 then
+      (if S.decodable s.scheme s.key then .key s else .nilKey)
+    else if s.scheme == 3 then .key s
+    else .badScheme
+
+/-- `GetRequestAuthor(vh)`: the top layer only. -/
+def requestAuthor (S : Scheme) : List VLayer → Author
+  | [] => .noHeader
+  | v :: _ => authorOfSig S v.bodySig
+
+/-- The historical rule "the original sender signs the body": descend to the innermost verification header first.
+NOT what the code does; kept to show (Props/C33 `innermost_author_unverified`) that the statement about
+`requestAuthor` separates the two. -/
+def innermostAuthor (S : Scheme) : List VLayer → Author
+  | [] => .noHeader
+  | [v] => authorOfSig S v.bodySig
+  | _ :: v :: vo => innermostAuthor S (v :: vo)
+
 /-! ## C31: the decision of `Server.Replicate` (pkg/services/object/server.go) together with the
 container-node iteration it consults (pkg/services/object/placement/service.go `forEachContainerNode`). -/
 
